@@ -131,6 +131,8 @@ CHECKS = {
         "parts": [
             part("c01l1", "pkg/kube_events_manager", "TestVerifC01L1", ["zz_verif_c01_test.go"], shards={"quick": 8, "thorough": 16},
                  extra={"pkg/kube_events_manager": ["zz_verif_hub.go"]}, instrument={"files": KEM_INSTR}, gomaxprocs=1),
+            part("c01l2", "pkg/shell-operator", "TestVerifC01L2", ["zz_verif_c01_test.go", "zz_verif_c03_test.go", "zz_verif_fixture_test.go"], shards={"quick": 9, "thorough": 9},
+                 extra=OP_EXTRA, instrument=OP_INSTR, gomaxprocs=1),
         ],
     },
     "C03": {
